@@ -586,16 +586,19 @@ let op_dynext opidx (_impl : string list option) toks =
       let onum x = let v = g x "-" in if v = "-" then None else Some (num v) in
       let obool x = let v = g x "-" in if v = "-" then None else Some (v = "1") in
       let t = { d_type = num (g "t.type" "0"); d_ri = num (g "t.ri" "255"); d_rc = num (g "t.rc" "255"); d_reqma = g "t.reqma" "0" = "1";
-                d_nc = g "t.nc" "1" = "1"; d_cnc = g "t.cnc" "0" = "1"; d_ss = num (g "t.ss" "0") } in
+                d_nc = g "t.nc" "1" = "1"; d_cnc = g "t.cnc" "0" = "1"; d_ss = num (g "t.ss" "0");
+                d_secret = bytes_of_hex (g "t.secret" "-"); d_addttl = num (g "t.addttl" "0"); d_lp = num (g "t.lp" "255") } in
       let l = { l_type = onum "l.type"; l_ri = onum "l.ri"; l_rc = onum "l.rc"; l_reqma = obool "l.reqma"; l_nc = obool "l.nc";
-                l_cnc = obool "l.cnc"; l_ss = onum "l.ss" } in
+                l_cnc = obool "l.cnc"; l_ss = onum "l.ss";
+                l_secret = (let v = g "l.secret" "-" in if v = "-" then None else Some (bytes_of_hex v)); l_addttl = onum "l.addttl"; l_lp = onum "l.lp" } in
       let b x = if x then 1 else 0 in
       (* secret, addTTL, LoopPrevention: the printed block's value when it gives one, else the template's *)
       let pick x = let v = g ("l." ^ x) "-" in if v = "-" then g ("t." ^ x) "" else v in
       let want_secret = pick "secret" and want_addttl = pick "addttl" and want_lp = pick "lp" in
       (match merge_dyn t l with
        | Some r -> pr "obs %d dynext ok=1 type=%d ri=%d rc=%d reqma=%d nc=%d cnc=%d ss=%d slen=%d secret=%s addttl=%s lp=%s\n" opidx (int_of_n r.d_type) (int_of_n r.d_ri)
-                     (int_of_n r.d_rc) (b r.d_reqma) (b r.d_nc) (b r.d_cnc) (int_of_n r.d_ss) (String.length want_secret / 2) want_secret want_addttl want_lp
+                     (int_of_n r.d_rc) (b r.d_reqma) (b r.d_nc) (b r.d_cnc) (int_of_n r.d_ss) (int_of_nat (secret_len r)) (hex_of_bytes r.d_secret)
+                     (string_of_int (int_of_n r.d_addttl)) (string_of_int (int_of_n r.d_lp))
        | None -> pr "obs %d dynext ok=0\n" opidx);
       (* on the implementation's own line: each option is what was configured -- the printed block's value, else the
          template's, else the transport default; requireMessageAuthenticator is the template's *)
@@ -639,7 +642,17 @@ let op_cookie opidx (impl : string list option) toks =
   match toks with
   | len :: mode :: rest ->
       let len = int_of_string len and arg = (match rest with a :: _ -> int_of_string a | [] -> 0) in
-      let want = len = 40 && (mode = "g" || (mode = "o" && arg <= 5)) in
+      (* the extracted check (Cookie.cookie_verify) on the same construction: time stamp of 8 octets, a 32-octet hash
+         that depends on every octet of the time *)
+      let now = 1000000 in
+      let ts t = List.init 8 (fun i -> n_of_int ((t lsr (8 * i)) land 255)) in
+      let tstamp b = z_of_int (List.fold_left (fun a (i, x) -> a + (int_of_n x lsl (8 * i))) 0 (List.mapi (fun i x -> (i, x)) b)) in
+      let hash t = let t = int_of_z t in List.init 32 (fun i -> n_of_int ((((t lsr (8 * (i mod 8))) land 255) + 3 * i + 1) land 255)) in
+      let t0 = if mode = "o" then now - arg else now in
+      let genuine = ts t0 @ hash (z_of_int t0) in
+      let c = List.init len (fun i -> if i < 40 then List.nth genuine i else n_of_int (arg land 255)) in
+      let c = if mode = "f" && len > 0 then List.mapi (fun i x -> if i = (arg / 8) mod len then n_of_int (int_of_n x lxor (1 lsl (arg mod 8))) else x) c else c in
+      let want = cookie_verify hash tstamp (z_of_int now) c in
       pr "obs %d cookie genuine=40 len=%d accept=%d\n" opidx len (if want then 1 else 0);
       (match impl with
        | Some ("cookie" :: kvs) ->
